@@ -229,6 +229,12 @@ def check_acc(rep, rule, c, what, a, term_text, env, L, term_cond=None, outer=()
         rep.bad(rule, site, what, f"{len(a.terms)} kinds of term are OR-ed in; expected exactly the subordinate's own signal")
         return False
     term, tgen, tdsl, ln = a.terms[0]
+    # `acc |= x if present else 0`: OR-ing a zero is OR-ing nothing, so the term is x, present only under the condition
+    tn_ = c.norm(term)
+    if tn_[0] == 'phi' and is_zero(c, tn_[3]):
+        term, tgen = tn_[2], tuple(tgen) + (('pyif', tn_[1], True),)
+    elif tn_[0] == 'phi' and is_zero(c, tn_[2]):
+        term, tgen = tn_[3], tuple(tgen) + (('pyif', tn_[1], False),)
     if c.norm(term) != want_term and (dl._mux_mask_pair(want_term, c.norm(term)) or dl._mux_mask_pair(c.norm(term), want_term)):
         rep.unk(rule, site, what, f"term is {c.show(term)}: a mask with a replicated strobe equals {ir.show(want_term)} exactly when the replication "
                 "count is the operand's width, which is not known here")
@@ -251,6 +257,7 @@ def check_acc(rep, rule, c, what, a, term_text, env, L, term_cond=None, outer=()
     ip = [fr for fr in ignore_prefix if fr[0] == 'pyif']
     tg = [fr for fr in tg if not (fr[0] == 'pyif' and fr in ip)]
     tg = [fr for fr in tg if not (fr[0] == 'pyif' and fr[2] and fr[1][0] == 'has' and fr[1][2] in MANDATORY_MEMBERS)]
+    tg = [fr for fr in tg if not (fr[0] == 'pyif' and fr[1] == ('const', bool(fr[2])))]
     want_tg = [('for', o) for o in outer] + [('for', L.id)] + ([] if term_cond is None else [('pyif', c.parse(term_cond, env), True)])
     if tg != want_tg:
         rep.bad(rule, site, what, "the term is not added for every subordinate (that has the signal): "
@@ -278,6 +285,8 @@ def check_fanin(rep, rule, c, what, target, term_text, env, L, bus_cond=None, te
     gen = [fr for fr in d.gen]
     want_gen = [('for', o) for o in outer] + ([] if bus_cond is None else [('pyif', c.parse(bus_cond, env), True)])
     got_gen = [(fr[0], c.norm(fr[1]), fr[2]) if fr[0] == 'pyif' else fr for fr in gen]
+    # a condition that is constantly true (hasattr of a mandatory member) is no condition
+    got_gen = [g for g in got_gen if not (g[0] == 'pyif' and g[1] == ('const', bool(g[2])))]
     if got_gen != want_gen:
         rep.bad(rule, site, what, f"driver exists under generation condition(s) {[ir.show(g[1]) if g[0]=='pyif' else g for g in got_gen]}; "
                 f"expected {'none' if bus_cond is None else bus_cond}", line=d.lineno)
